@@ -258,6 +258,10 @@ class Checker:
         else:
             req = {"op": "async", "case": W.to_model(case), "schedule": obs["choices"]}
         self.pending.append((req, model_view(obs, sched is not None), case, config, sched))
+        if sched is not None and case["kind"] == "mutation":
+            # today's LOOP form of execute_fields_serially (AsyncExecLoop.lean) must predict the same run as the recursive form
+            self.ctx.stat("model-loop-form-compared")
+            self.pending.append((dict(req, op="async-loop"), model_view(obs, True), case, config + "/loop-form", sched))
         if len(self.pending) >= 4000:
             self.flush()
 
